@@ -84,6 +84,14 @@ def state():
             if k.startswith("__") or isinstance(v, types.ModuleType):
                 continue
             loc = "%s.%s" % (mname, k)
+            if hasattr(v, "cache_info") and callable(getattr(v, "cache_info", None)):
+                # functools.lru_cache / cache wrappers keep state that no module-level container shows
+                try:
+                    ci = v.cache_info()
+                    out[loc + ".cache"] = "lru(currsize=%d)" % ci.currsize
+                except Exception:
+                    pass
+                continue
             if not isinstance(v, (dict, list, set, type, types.FunctionType, *SCALARS)) and not _is_autograd_instance(v):
                 _BORING[(mname, k)] = id(v)
                 continue
